@@ -48,6 +48,7 @@ func runC08(r *an.Run) {
 	compiledInterfacesNeverNil(r, "R12-compiled-matchers-are-never-nil")
 	emptiedGroupsAreDropped(r, "R13-emptied-comment-groups-are-dropped")
 	recursiveComparisonsMemoised(r, "R14-recursive-comparisons-are-made-once")
+	noRecursionInTheFrontEnd(r, "R15-no-recursion-outside-the-tree-walkers")
 }
 
 func tokenEOF(r *an.Run) int64 {
@@ -534,6 +535,27 @@ func c08Beliefs(r *an.Run) {
 					}
 				}
 			}
+			// … or in the function registered for that type in the compile function's dispatch table (the only
+			// caller of a method-expression thunk is the table)
+			for _, cf := range []string{"matcherCompiler.compile", "replacerCompiler.compile"} {
+				if disp := r.P.Func(engine, cf); disp != nil && len(an.EqCases(disp, isCallOnParam(rvType, "v"))) == 0 {
+					if td := tableDispatchOf(r, disp, gt); td != nil {
+						registered, elsewhere := false, false
+						for _, a := range td.arms {
+							if a.fn == g {
+								if a.typ == pair[1] {
+									registered = true
+								} else {
+									elsewhere = true
+								}
+							}
+						}
+						if registered && !elsewhere && onlyUsedInInit(r, g) {
+							found = true
+						}
+					}
+				}
+			}
 			if !found {
 				okAll = false
 			}
@@ -877,6 +899,25 @@ func errorReachesEveryReturn(from *ssa.BasicBlock, ev ssa.Value) bool {
 		res := p.ResolveOnPath(ret.Results[len(ret.Results)-1])
 		if an.IsNilConst(res) || !derivesFrom(res, ev) {
 			return false
+		}
+	}
+	return true
+}
+
+// onlyUsedInInit: the function value g appears as an operand only in the
+// package's init functions (it is registered in a table there) and is never
+// called by name.
+func onlyUsedInInit(r *an.Run, g *ssa.Function) bool {
+	for _, h := range r.P.ModuleFuncs() {
+		isInit := h.Name() == "init" || strings.HasPrefix(h.Name(), "init#")
+		for _, b := range h.Blocks {
+			for _, in := range b.Instrs {
+				for _, op := range in.Operands(nil) {
+					if *op == ssa.Value(g) && !isInit {
+						return false
+					}
+				}
+			}
 		}
 	}
 	return true
